@@ -368,6 +368,11 @@ func (ex *Exec) checkFrame(fr *Frame, st *State, ct *Contract, ord int, pos toke
 			sfail("modifies: no field %s", sel.Name)
 		}
 	}
+	if st.epoch != "" {
+		// something on this path may have written ANY component (a callee without a frame): a frame claim cannot be
+		// established for components this function never names
+		ex.obligeNamed(st, fmt.Sprintf("%s#frame(*)@ret%d", key, ord), "frame", "false", "frame: a call or loop on this path may write the whole heap; nothing outside the modifies clause can be shown unchanged", pos)
+	}
 	var comps []string
 	for k := range st.heap {
 		comps = append(comps, k)
